@@ -312,11 +312,60 @@ def conform(iname, mname, rname, bc, idx, dtmode, tab, res=None):
     return out
 
 
+class AliasDisc:
+    """right-hand sides that return the arrays of the field they were given (or views of them): dy/dt = y as [f.data[0]], the oscillator
+    [f.data[1], -f.data[0]] and a reversed view; 'copy=True' is the twin that returns fresh arrays"""
+
+    def __init__(self, kind, copy):
+        self.kind, self.copy = kind, copy
+
+    def rhs(self, f):
+        if self.kind == "identity":
+            r = [f.data[0]]
+        elif self.kind == "oscillator":
+            r = [f.data[1], -f.data[0]]
+        else:
+            r = [f.data[0][::-1]]
+        return [np.array(x, copy=True) for x in r] if self.copy else r
+
+
+class _M2:
+    neq = 2
+    shape = [1, 1]
+
+
+def check_alias(name, res=None):
+    """'for every right-hand side' includes one whose result aliases its argument: the step must equal the step with the copying twin"""
+    cls = space.integrators()[name]
+    out = []
+    for kind in ("identity", "oscillator", "reversed-view"):
+        model = _M2() if kind == "oscillator" else _M()
+        mesh = _Mesh(3)
+        y0 = [np.array([1.0, -2.0, 0.5])] if kind != "oscillator" else [np.array([1.0, -2.0, 0.5]), np.array([0.25, 3.0, -1.0])]
+        results = []
+        for copy in (True, False):
+            solver = cls(mesh, AliasDisc(kind, copy))
+            f = space.field.fdata(model, mesh, [y.copy() for y in y0], t=0.5)
+            with np.errstate(all="ignore"):
+                solver.step(f, 0.1)
+                solver.step(f, 0.1)
+            results.append([d.copy() for d in f.data])
+        if res is not None:
+            res.evals += 1
+            res.transitions += 4
+        if not all(np.array_equal(a, b) for a, b in zip(*results)):
+            out.append(("C05/%s/aliasing-right-hand-side/%s" % (name, kind), "%s: two steps of dy/dt=%s with a right-hand side that returns (views of) the field's own arrays give %r, "
+                        "with the copying twin %r" % (name, kind, [r.tolist() for r in results[1]], [r.tolist() for r in results[0]])))
+    return out
+
+
 def shard_model(name):
     res = core.Res()
     v, tab = check_model(name, res)
     for s, w in v:
         res.violation(s, w, {"kind": "model", "integrator": name})
+    for s, w in check_alias(name, res):
+        res.violation(s, w, {"kind": "alias", "integrator": name})
     res.states.add(hash(("tableau", name, tab["A"].tobytes(), tab["b"].tobytes())))
     res.nontrivial += 1
     res.sample({"integrator": name, "decoded_A": tab["A"].tolist(), "decoded_b": tab["b"].tolist(), "decoded_c": tab["c"].tolist()}, cap=1)
@@ -353,5 +402,7 @@ def run(ctx):
 def replay(case):
     if case["kind"] == "model":
         return check_model(case["integrator"])[0]
+    if case["kind"] == "alias":
+        return check_alias(case["integrator"])
     tab = extract(space.integrators()[case["integrator"]])
     return conform(case["integrator"], case["model"], case["recon"], case["bc"], tuple(case["idx"]), case["dt"], tab)
